@@ -38,6 +38,11 @@ def run(tier, out, model_ok, proof):
     for i, roots in enumerate(docs):
         files = C09.split_project(rng, roots) if rng.random() < 0.25 else {"root.jst": C09.render_nodes(roots)}
         cases.append(treecorr.project_case("a%d" % i, files))
+    # documents with one injected rule fault (duplicate method / JSON-RPC method / names, ...):
+    # normally rejected; should a change make one ACCEPTED, its catalog still has to be closed
+    C03 = importlib.import_module("checks.C03")
+    for k, (cls, d) in enumerate(C03.fault_docs(rng, 12 if big else 3)):
+        cases.append(treecorr.single_file_case("flt%d" % k, d))
     corp = corpus_files()
     for i, f in enumerate(corp if big else rng.sample(corp, 250)):
         d = open(f, "rb").read()
@@ -63,7 +68,7 @@ def run(tier, out, model_ok, proof):
     out.coverage.update({
         "evaluations": len(cases),
         "distinct_nontrivial": accepted,
-        "rule": "structured valid documents (Tags/TAG, URL grouping, MACRO/PASTE, INCLUDE trees, shared path prefixes, JSON-RPC) + hand-picked shapes + corpus files; for every accepted build the cross-reference invariant is evaluated on the parsed ToJson output (keys = ids = protocol/method/path, tags both ways with multiplicity one, usedUserTypes/usedUserEnums defined, pathVariables = {parameters}, response codes and bodies, jsight 0.3) and the catalog skeleton is compared with the extracted Coq model; non-trivial = accepted",
+        "rule": "structured valid documents (Tags/TAG, URL grouping, MACRO/PASTE, INCLUDE trees, shared path prefixes, JSON-RPC) + hand-picked shapes + corpus files + documents with one injected rule fault of each class of C03 (if ever accepted); for every accepted build the cross-reference invariant is evaluated on the parsed ToJson output (keys = ids = protocol/method/path, tags both ways with multiplicity one, usedUserTypes/usedUserEnums defined, pathVariables = {parameters}, response codes and bodies, jsight 0.3) and the catalog skeleton is compared with the extracted Coq model; non-trivial = accepted",
         "samples": [bytes.fromhex(cases[0]["files"]["root.jst"]).decode("latin1")[:300]],
         "traces_validated_against_impl": (len(cases) - len(mism) - skipped) if model_ok else 0,
         "skipped_unmodelled": skipped,
